@@ -150,8 +150,12 @@ def run_passes(ctx, mod, spec: str, alarm_s: int = 3, verify: bool = True):
     from xdsl.passes import PassPipeline
 
     m = main()
-    old = signal.signal(signal.SIGALRM, _alarm)
-    signal.alarm(alarm_s)
+    # the budget is CPU time of this process (ITIMER_VIRTUAL), not wall-clock time: a loaded machine must not turn a slow pass
+    # into a "does not terminate"; a generous wall-clock alarm stays as a backstop against a pass that blocks
+    old = signal.signal(signal.SIGVTALRM, _alarm)
+    old_wall = signal.signal(signal.SIGALRM, _alarm)
+    signal.setitimer(signal.ITIMER_VIRTUAL, alarm_s)
+    signal.alarm(alarm_s * 40)
     old_err = sys.stderr
     sys.stderr = _DEVNULL  # some passes print diagnostics about patterns they could not apply
     try:
@@ -159,8 +163,10 @@ def run_passes(ctx, mod, spec: str, alarm_s: int = 3, verify: bool = True):
         if verify:
             mod.verify()
     finally:
+        signal.setitimer(signal.ITIMER_VIRTUAL, 0)
         signal.alarm(0)
-        signal.signal(signal.SIGALRM, old)
+        signal.signal(signal.SIGVTALRM, old)
+        signal.signal(signal.SIGALRM, old_wall)
         sys.stderr = old_err
     return mod
 
